@@ -3,8 +3,9 @@ CONSTANTS
   U = 1024
   RootT = 4
   Family = "termteval"
-  Grids <- Grids_q2
+  Grids <- Grids_ev1
   MaxT = 2
   MaxRoots = 1
+  KAll = FALSE
   Known <- Known_none
 INVARIANTS ContractHolds Emit
